@@ -96,7 +96,7 @@ func checkC01(c *Ctx) {
 		sub := *d
 		sub.queries = nil
 		for _, q := range d.queries {
-			if strings.Contains(c.fname(q), "subscriptionsState") {
+			if d.queryIface[q] == "SubscriptionsState" {
 				sub.queries = append(sub.queries, q)
 			}
 		}
@@ -165,6 +165,8 @@ func checkC01(c *Ctx) {
 
 	// R4
 	c.rulePerRecipientWrites("C01-R4")
+	c.ruleMultiLevelWildcardParent("C01-R7")
+	c.ruleFullTraversal("C01-R8", 2)
 }
 
 // rulePerRecipientWrites implements C01-R4 / C06-R1: per recipient iteration of the fan-out.
@@ -332,6 +334,36 @@ func (c *Ctx) rulePerRecipientWrites(id string) {
 		if !loop.Blocks[al.Block()] {
 			bad = "the packet armed for each recipient is one object allocated before the recipient loop and rewritten per recipient: every in-flight entry and retransmission closure of the delivery ends up pointing at the last recipient's identifier, QoS and topic"
 		}
+		// parts of the packet reached through a pointer (its header) are per recipient too when they are written per recipient
+		if al.Referrers() != nil {
+			for _, r := range *al.Referrers() {
+				fa, ok := r.(*ssa.FieldAddr)
+				if !ok || fa.Referrers() == nil {
+					continue
+				}
+				for _, rr := range *fa.Referrers() {
+					st, ok := rr.(*ssa.Store)
+					if !ok || st.Addr != ssa.Value(fa) {
+						continue
+					}
+					part, ok := core.Strip(st.Val).(*ssa.Alloc)
+					if !ok || part.Parent() != fan || loop.Blocks[part.Block()] || part.Referrers() == nil {
+						continue
+					}
+					for _, pr := range *part.Referrers() {
+						pfa, ok := pr.(*ssa.FieldAddr)
+						if !ok || pfa.Referrers() == nil {
+							continue
+						}
+						for _, prr := range *pfa.Referrers() {
+							if pst, ok := prr.(*ssa.Store); ok && pst.Addr == ssa.Value(pfa) && loop.Blocks[pst.Block()] {
+								bad = "the " + fieldNameOf(fa.X.Type(), fa.Field) + " of every recipient's packet is one object allocated before the recipient loop (" + c.whereI(part) + ") and rewritten per recipient (" + c.whereI(pst) + "): the packets already registered in flight see the last recipient's values, so a retransmission goes out with another recipient's QoS"
+							}
+						}
+					}
+				}
+			}
+		}
 	}
 	ru.Check(bad == "" && nArm > 0, "per-recipient packet in "+c.fname(fan), c.where(fan, fan), fmt.Sprintf("%d arming call(s), each on a packet allocated in its own iteration", nArm), bad)
 	// the lookup key is the recipient of this iteration
@@ -372,10 +404,11 @@ func checkC06(c *Ctx) {
 	// R3
 	ru3 := c.R.Rule("C06-R3", "the identifier pool's free list is read and written only under the pool mutex", "E5 lockset", 1)
 	la := c.lockAnalysis()
+	pool := c.idPool(ru3)
 	found := false
 	for _, m := range la.monitors {
 		for n, mi := range m.fields {
-			if mi.guardLock() == "" || !strings.Contains(strings.ToLower(m.named.Obj().Name()), "pool") {
+			if mi.guardLock() == "" || pool == nil || m.named != pool.named {
 				continue
 			}
 			found = true
@@ -392,8 +425,18 @@ func checkC06(c *Ctx) {
 		}
 	}
 	ru3.Anchor(found, "a mutex-guarded member in the identifier pool")
-	c.checkSortSearchSites("C06-R4", func(f *ssa.Function) bool { return strings.Contains(strings.ToLower(c.fname(f)), "pool") }, 1)
+	c.checkSortSearchSites("C06-R4", func(f *ssa.Function) bool {
+		if pool == nil || f.Signature.Recv() == nil {
+			return false
+		}
+		n, ok := derefT(enclosingTop(f).Signature.Recv().Type()).(*types.Named)
+		return ok && n == pool.named
+	}, 1)
 	c.ruleFreeListShrink("C06-R5")
+	c.ruleFreeListBounds("C06-R6")
+	c.ruleExhaustion("C06-R7")
+	c.ruleSearchPostcondition("C06-R8")
+	c.ruleAppendAliasing("C06-R9", "wasp")
 }
 
 func checkC07(c *Ctx) {
@@ -643,13 +686,14 @@ func checkC07(c *Ctx) {
 		sub := *d
 		sub.queries = nil
 		for _, q := range d.queries {
-			if strings.Contains(c.fname(q), "topicsState") {
+			if d.queryIface[q] == "TopicsState" {
 				sub.queries = append(sub.queries, q)
 			}
 		}
 		c.ruleVisibility("C07-R3", &sub, 1)
 		c.ruleMergeTable("C07-R6", d)
 	}
+	c.ruleRetainedWildcardParent("C07-R7")
 	// R4
 	ru4 := c.R.Rule("C07-R4", "the per-recipient outgoing packet copies Header.Retain from the source publish (a replayed retained message arrives flagged; a live copy arrives unflagged because the worker cleared the flag)", "E3 provenance", 1)
 	n := 0
@@ -771,9 +815,10 @@ func (c *Ctx) ruleVisitOnce(id, pkg string, entry *ssa.Function) {
 func (c *Ctx) ruleFreeListShrink(id string) {
 	ru := c.R.Rule(id, "the pool's free list loses at most one interval per step: it is never re-sliced from a variable low bound (s = s[i:]) or to an arbitrary high bound, and a deletion by append(s[:h], s[l:]...) has l == h or l == h+1 — free identifiers never vanish en bloc", "E11 shape rule on stores to the guarded free list", 3)
 	la := c.lockAnalysis()
+	pool := c.idPool(ru)
 	n := 0
 	for _, m := range la.monitors {
-		if !stringsContains(stringsToLower(m.named.Obj().Name()), "pool") {
+		if pool == nil || m.named != pool.named {
 			continue
 		}
 		for fname, mi := range m.fields {
